@@ -558,10 +558,10 @@ func verifC36Command(t *rapid.T, cfg verifC36Config, i int) SendCommand {
 	if rapid.IntRange(0, 4).Draw(t, "cmdSuffix") == 0 {
 		cmd.ChannelID = runtimechannelid.ToCommandChannel(cmd.ChannelID)
 	}
-	switch rapid.IntRange(0, 24).Draw(t, "scoped") {
-	case 0:
+	switch rapid.IntRange(0, 39).Draw(t, "scoped") {
+	case 17:
 		cmd.RequestScoped, cmd.MessageScopedUIDs, cmd.ChannelID, cmd.ChannelType = true, []string{"u2"}, "", 0
-	case 1:
+	case 23:
 		cmd.MessageScopedUIDs = []string{"u2", "u3"} // message-scoped targets on an ordinary channel: ordinary checks still apply
 	}
 	if rapid.IntRange(0, 2).Draw(t, "session") > 0 {
@@ -578,21 +578,23 @@ func verifC36DrawFact(t *rapid.T, k verifC36Key, withErrors bool, injected *int)
 	}
 	switch k.kind {
 	case PermissionReadChannel:
-		bits := rapid.IntRange(0, 31).Draw(t, label)
-		if bits&1 == 0 && bits < 12 {
-			return verifC36Fact{} // no row
+		// weighted row templates: absent, plain, and every flag combination that matters
+		tpl := rapid.SampledFrom([]string{"plain", "absent", "disband", "ban", "plain+stranger", "sendban", "absent", "ban+disband", "plain",
+			"sendban+disband", "stranger+disband", "absent", "ban+sendban", "plain+stranger", "all"}).Draw(t, label)
+		if tpl == "absent" {
+			return verifC36Fact{}
 		}
 		f := verifC36Fact{found: true, channel: metadb.Channel{ChannelID: k.channelID, ChannelType: k.channelType}}
-		if bits&2 != 0 {
+		if strings.Contains(tpl, "disband") || tpl == "all" {
 			f.channel.Disband = 1
 		}
-		if bits&4 != 0 && bits&8 != 0 {
+		if strings.HasPrefix(tpl, "ban") || tpl == "all" {
 			f.channel.Ban = 1
 		}
-		if bits&16 != 0 && bits&4 != 0 {
+		if strings.Contains(tpl, "sendban") || tpl == "all" {
 			f.channel.SendBan = 1
 		}
-		if bits&8 != 0 {
+		if strings.Contains(tpl, "stranger") || tpl == "all" {
 			f.channel.AllowStranger = 1
 		}
 		return f
@@ -631,7 +633,7 @@ func TestVerifC36PermissionPaths(t *testing.T) {
 		if rapid.IntRange(0, 2).Draw(rt, "hasSystemDevice") > 0 {
 			cfg.systemDeviceID = "____device"
 		}
-		cfg.storeNil = rapid.IntRange(0, 39).Draw(rt, "storeNil") == 0
+		cfg.storeNil = rapid.IntRange(0, 59).Draw(rt, "storeNil") == 41
 		withErrors := rapid.IntRange(0, 3).Draw(rt, "withErrors") == 0
 
 		n := rapid.IntRange(1, 8).Draw(rt, "commands")
